@@ -83,9 +83,69 @@ func printableKey(r *rand.Rand, n int) []byte {
 	return b
 }
 
+type slowGetResult struct {
+	proto  string
+	what   string // "" = every value arrived as set
+	replay map[string]interface{}
+}
+
+// slowReaderMultiGet sets four values (300000, 290000, 1500 and 10 bytes) on a chunked stack and
+// reads them back with ONE multi-key get per protocol through a client that starts reading 600 ms
+// after it sent the request: the proxy's writes of the earlier values block while the handler
+// already reads the next key.
+func slowReaderMultiGet(cfg StackCfg) []slowGetResult {
+	st := GetStack(cfg)
+	st.Reset()
+	sizes := []int{300000, 290000, 1500, 10}
+	vals := make([][]byte, len(sizes))
+	setup := st.Dial("main", "bin")
+	for i, n := range sizes {
+		vals[i] = make([]byte, n)
+		for j := range vals[i] {
+			vals[i][j] = byte('a' + (i*7+j)%23)
+		}
+		out, e := setup.Feed(Command{Kind: "set", Key: []byte(fmt.Sprintf("big%d", i)), Flags: uint32(40 + i), Data: vals[i], Opaque: uint32(i + 1)}.Encode("bin"), 20*time.Second)
+		if e != "eof" || len(out) < 24 || out[6] != 0 || out[7] != 0 {
+			setup.Close()
+			return []slowGetResult{{proto: "bin", what: fmt.Sprintf("a set of a %d-byte value was not acknowledged", n), replay: map[string]interface{}{"stack": cfg.String()}}}
+		}
+	}
+	setup.Close()
+	var res []slowGetResult
+	for _, proto := range []string{"text", "bin"} {
+		c := Command{Kind: "get"}
+		for i := range sizes {
+			c.Keys = append(c.Keys, GetKey{Key: []byte(fmt.Sprintf("big%d", i)), Opaque: uint32(70 + i), Quiet: proto == "bin" && i < len(sizes)-1})
+		}
+		cl := st.Dial("main", proto)
+		sent, sentReply := cl.Sentinel()
+		_, werr := cl.c.Write(append(c.Encode(proto), sent...))
+		time.Sleep(600 * time.Millisecond) // the client is slow to start reading
+		var out []byte
+		ending := "write-failed"
+		if werr == nil {
+			out, ending = cl.FeedRaw(nil, sentReply, 20*time.Second)
+		}
+		cl.Close()
+		r := slowGetResult{proto: proto, replay: map[string]interface{}{"stack": cfg.String(), "proto": proto, "values": sizes, "client": "sends `get big0 big1 big2 big3`, waits 600 ms, then reads"}}
+		if ending != "eof" {
+			r.what = fmt.Sprintf("multi-key get of large values with a slow reader ended %q", ending)
+		} else {
+			for i := range sizes {
+				if !bytes.Contains(out, vals[i]) {
+					r.what = fmt.Sprintf("in a multi-key get read by a slow client the value of key big%d (%d bytes) did not arrive as it was set: the reply carries bytes that no set wrote under that key", i, sizes[i])
+					break
+				}
+			}
+		}
+		res = append(res, r)
+	}
+	return res
+}
+
 func init() {
 	checks["C04"] = func(rep *Report, tier string, seed int64) {
-		rep.Rule = "chunked L1 as the store of record (L1-only stacks, with and without the locking wrapper): (a) directed set/get/gat round trips for key lengths 1..250 (quick: a sample incl. 1, 2, 249, 250; thorough: every length) x value lengths {0, 1, p-1, p, p+1, 2p-1, 2p, 2p+1, 3p+1} (p = payload size for that key length) over both protocols; (b) seeded random sequences of all nine commands over per-case key alphabets that contain keys which are prefixes / derived-looking variants of each other ('k', 'k-1', 'k-meta', 'k-1-meta') and long keys; every reply judged by the single-map specification, bytes/traces/contents compared with the Lean model, and after every command a footprint probe on the backend request log (only entries derived from the command's keys) and, after delete, on the backend contents; distinct = distinct (configuration, case) pairs in which a reply carried a value"
+		rep.Rule = "chunked L1 as the store of record (L1-only stacks, with and without the locking wrapper): (a) directed set/get/gat round trips for key lengths 1..250 (quick: a sample incl. 1, 2, 249, 250; thorough: every length) x value lengths {0, 1, p-1, p, p+1, 2p-1, 2p, 2p+1, 3p+1} (p = payload size for that key length) over both protocols; (b) seeded random sequences of all nine commands over per-case key alphabets that contain keys which are prefixes / derived-looking variants of each other ('k', 'k-1', 'k-meta', 'k-1-meta') and long keys; every reply judged by the single-map specification, bytes/traces/contents compared with the Lean model, and after every command a footprint probe on the backend request log (only entries derived from the command's keys) and, after delete, on the backend contents; (c) a multi-key get of 300000-, 290000-, 1500- and 10-byte values read by a client that starts reading 600 ms late (the proxy's reply writes block while the handler goes on to the next key): every value must arrive as set; distinct = distinct (configuration, case) pairs in which a reply carried a value"
 		d := StartDriver()
 		defer d.Close()
 		distinct := map[string]bool{}
@@ -191,6 +251,20 @@ func init() {
 				if !runOne(sc, fmt.Sprintf("seq%d", n)) {
 					rep.Distinct = len(distinct)
 					return
+				}
+			}
+		}
+		// (c) a multi-key get of LARGE values read by a SLOW client: the handler reads the keys one
+		// after the other while the proxy is still writing the earlier values to a client that is not
+		// reading yet — every value must arrive exactly as it was set
+		for _, cfg := range []StackCfg{{Orca: "l1only", Locked: "none", Bits: 0, L1: "chunked"}, {Orca: "l1only", Locked: "sr", Bits: 1, L1: "chunked"}} {
+			for _, pr := range slowReaderMultiGet(cfg) {
+				rep.Evaluations++
+				rep.Validated++
+				rep.Distribution["slow-reader-multiget"]++
+				distinct[cfg.String()+"/slow-multiget/"+pr.proto] = true
+				if pr.what != "" {
+					rep.Violations = append(rep.Violations, Violation{What: fmt.Sprintf("%s, %s: %s", cfg, pr.proto, pr.what), Signature: "slow-multiget", Replay: pr.replay})
 				}
 			}
 		}
